@@ -220,7 +220,7 @@ func (x *c02pubs) onlyStatic(fn *ssa.Function) bool {
 	if recv := fn.Signature.Recv(); recv != nil {
 		if x.invoked == nil {
 			x.invoked = map[string][]*types.Interface{}
-			for _, f := range x.c.AllFns {
+			for _, f := range c02fns(x.c) {
 				eachInstr(f, func(i ssa.Instruction) {
 					if cc := callCommon(i); cc != nil && cc.IsInvoke() {
 						if it, ok := cc.Value.Type().Underlying().(*types.Interface); ok {
@@ -248,7 +248,7 @@ func (x *c02pubs) initLike(f *ssa.Function, depth int) bool {
 	if isInitFn(f) {
 		return true
 	}
-	sites := gSites[f]
+	sites := c02sites(f)
 	if depth > 2 || len(sites) == 0 || !x.onlyStatic(f) {
 		return false
 	}
@@ -293,7 +293,7 @@ func runC02A1(c *Ctx) *c02pubs {
 	}
 	// every package-level variable of the repository that contains a sync/atomic cell, and all uses of it
 	uses := map[*ssa.Global][]ssa.Instruction{}
-	for _, f := range c.AllFns {
+	for _, f := range c02fns(c) {
 		eachInstr(f, func(i ssa.Instruction) {
 			for _, op := range i.Operands(nil) {
 				if op == nil || *op == nil {
@@ -397,7 +397,7 @@ func runC02A1(c *Ctx) *c02pubs {
 		if !x.onlyStatic(f) {
 			continue // exported getter: its callers are judged by A4
 		}
-		for _, s := range gSites[f] {
+		for _, s := range c02sites(f) {
 			caller := s.Parent()
 			if caller == nil || x.initLike(caller, 0) {
 				continue
@@ -412,7 +412,7 @@ func runC02A1(c *Ctx) *c02pubs {
 	// publishing functions, transitively: f hands its parameter k to the atomic store or to another publishing function
 	for changed := true; changed; {
 		changed = false
-		for _, f := range c.AllFns {
+		for _, f := range c02fns(c) {
 			if _, ok := x.pubs[f]; ok {
 				continue
 			}
@@ -450,7 +450,7 @@ func runC02A1(c *Ctx) *c02pubs {
 			x.sites = append(x.sites, s)
 		}
 	}
-	for _, f := range c.AllFns {
+	for _, f := range c02fns(c) {
 		ff := f
 		eachInstr(f, func(i ssa.Instruction) {
 			cc := callCommon(i)
@@ -540,12 +540,12 @@ func (x *c02pubs) nonNilCell(v ssa.Value, cell *ssa.Alloc, at *ssa.BasicBlock, d
 	case *ssa.MakeMap, *ssa.Alloc, *ssa.MakeSlice:
 		return true
 	case *ssa.Parameter:
-		if knownNonNil(at, same) {
+		if knownNonNil(at, same) || c02nonNilByPredicate(at, same) {
 			return true
 		}
 		fn := y.Parent()
 		k := c02paramIndex(y)
-		sites := gSites[fn]
+		sites := c02sites(fn)
 		if depth >= 3 || k < 0 || len(sites) == 0 || !x.onlyStatic(fn) {
 			return false
 		}
@@ -557,7 +557,7 @@ func (x *c02pubs) nonNilCell(v ssa.Value, cell *ssa.Alloc, at *ssa.BasicBlock, d
 		}
 		return true
 	}
-	return knownNonNil(at, same)
+	return knownNonNil(at, same) || c02nonNilByPredicate(at, same)
 }
 
 func runC02L3(c *Ctx, x *c02pubs) {
@@ -669,27 +669,37 @@ func runC02L2(c *Ctx, x *c02pubs) {
 			continue
 		}
 		done[f] = true
-		eachInstr(f, func(i ssa.Instruction) {
-			r, ok := i.(*ssa.Return)
-			if !ok || len(r.Results) != 2 {
-				return
+		// judged per source-level return: a function that returns through result variables (deferred call, `return`
+		// inside the body of a range-over-func loop) is judged where the variables are assigned
+		rets, followed := c02logicalReturns(f)
+		if !followed {
+			c.check("C02.L2", fnKey(f)+"|result variables are only assigned and returned", f.Pos(), false,
+				"the address of a result variable of this table constructor is handed to code that is not followed: it cannot be decided what the constructor returns with an error")
+		}
+		for _, r := range rets {
+			if len(r.results) != 2 {
+				continue
 			}
 			nRet++
-			if c02defNil(r.Results[1], r.Block(), map[ssa.Value]bool{}) {
-				c.check("C02.L2", fnKey(f)+"|success return", r.Pos(), true, "error is nil")
-				return
+			if c02defNil(r.results[1], r.block, map[ssa.Value]bool{}) {
+				c.check("C02.L2", fnKey(f)+"|success return", r.pos, true, "error is nil")
+				continue
 			}
-			if call := c02passThrough(r); call != nil {
+			if c02errReplaced(r) {
+				c.check("C02.L2", fnKey(f)+"|error replaced by an error", r.pos, true, "only the error result is assigned, where it is non-nil already")
+				continue
+			}
+			if call := c02passThroughVals(r.results[0], r.results[1]); call != nil {
 				if sc := call.Call.StaticCallee(); sc != nil && isRepoFn(sc) && len(sc.Blocks) > 0 && c02returnsTableErr(sc.Signature) {
 					// both results of a helper handed on unchanged: the helper's returns are judged instead
-					c.check("C02.L2", fnKey(f)+"|hands on the results of "+fnKey(sc), r.Pos(), true, "judged at the returns of "+fnKey(sc))
+					c.check("C02.L2", fnKey(f)+"|hands on the results of "+fnKey(sc), r.pos, true, "judged at the returns of "+fnKey(sc))
 					work = append(work, unwrap(sc))
-					return
+					continue
 				}
 			}
-			c.check("C02.L2", fnKey(f)+"|error return carries no table", r.Pos(), isNilConst(r.Results[0]),
+			c.check("C02.L2", fnKey(f)+"|error return carries no table", r.pos, c02nilWhenErr(r.results[0], r.results[1], r.block, 0),
 				"a constructor return whose error may be non-nil must return a nil table: a partially built table must never reach SetTable (the custom backend installs whatever it gets, relying on nil being ignored)")
-		})
+		}
 	}
 	c.atLeast("C02.L2", "returns of the table constructors", nRet, 2)
 }
@@ -715,29 +725,35 @@ func (x *c02pubs) producer(f *ssa.Function, depth int) (successBad, errCarries b
 	if depth > 3 || len(f.Blocks) == 0 {
 		return true, true
 	}
-	eachInstr(f, func(i ssa.Instruction) {
-		r, ok := i.(*ssa.Return)
-		if !ok || len(r.Results) != 2 {
-			return
+	rets, followed := c02logicalReturns(f)
+	if !followed {
+		return true, true
+	}
+	for _, r := range rets {
+		if len(r.results) != 2 {
+			continue
 		}
-		if call := c02passThrough(r); call != nil {
+		if call := c02passThroughVals(r.results[0], r.results[1]); call != nil {
 			if sc := call.Call.StaticCallee(); sc != nil && isRepoFn(sc) && c02returnsTableErr(sc.Signature) {
 				sb, ec := x.producer(unwrap(sc), depth+1)
 				successBad = successBad || sb
 				errCarries = errCarries || ec
-				return
+				continue
 			}
 		}
-		if c02defNil(r.Results[1], r.Block(), map[ssa.Value]bool{}) {
-			if ok, _ := x.validTable(r.Results[0], r.Block(), depth+1, map[ssa.Value]bool{}); !ok {
+		if c02defNil(r.results[1], r.block, map[ssa.Value]bool{}) {
+			if ok, _ := x.validTable(r.results[0], r.block, depth+1, map[ssa.Value]bool{}); !ok {
 				successBad = true
 			}
-			return
+			continue
 		}
-		if !isNilConst(r.Results[0]) {
+		if c02errReplaced(r) {
+			continue
+		}
+		if !c02nilWhenErr(r.results[0], r.results[1], r.block, 0) {
 			errCarries = true
 		}
-	})
+	}
 	return
 }
 
@@ -815,7 +831,7 @@ func (x *c02pubs) validTable(v ssa.Value, at *ssa.BasicBlock, depth int, seen ma
 	case *ssa.Parameter:
 		fn := y.Parent()
 		k := c02paramIndex(y)
-		sites := gSites[fn]
+		sites := c02sites(fn)
 		if k < 0 || len(sites) == 0 || !x.onlyStatic(fn) {
 			return false, ""
 		}
